@@ -204,6 +204,10 @@ def load_one(lit: LineIterator) -> dict:
 
     result["obasis"] = MolecularBasis(shells, CONVENTIONS, "L2")
     nbasis = fchk["Number of basis functions"]
+    if result["obasis"].nbasis != nbasis:
+        raise LoadError(
+            "The number of basis functions is inconsistent with the shell types.", lit.filename
+        )
 
     # C) Load density matrices
     one_rdms = {}
